@@ -1,6 +1,11 @@
 """C20 — the jet output file contains exactly this call's jets with correct constituents.
 
-Tie C only (no translator): the executable Lean model `Core/Jets.lean` (driver `drivers/C20.lean`) is run on
+Tie T: harness/translate/jets.py regenerates Gen/Jets.lean (`genNormalise`, `genPseudoJets`, `genDeltaR`, `genFill`,
+`genSubtract`, `genWriteJetOutput` + row layout, `genPerform`, `genRead` + column conversions) from the current source
+of JetAnalysis.py; Lemmas/JetsGen.lean proves them equal to the hand-written model, Props/C20/Gen.lean restates the
+property theorems about them.  A method outside the translated fragment falls back to the committed golden text of
+its region (tie C only for it, enlarged correspondence).
+Tie C: the executable Lean model `Core/Jets.lean` AND the generated functions (driver ops `g…`) are run on
 the same inputs as the real `JetAnalysis`; fastjet is a parameter of the model, so the harness calls fastjet
 itself (same algorithm / radius, `inclusive_jets(0)`) and hands the model every clustered jet together with
 the `delta_r` to every particle, computed by the formula the code uses.  The contract "what the code gets
@@ -31,6 +36,34 @@ INF = float("inf")
 ALG_NAMES = ["antikt", "kt", "cambridge", "genkt"]
 _TMP = None
 _FJ_READY = False
+
+
+# ------------------------------------------------------------------ tie T
+def translate(ctx):
+    """Gen/Jets.lean from the current source of JetAnalysis.py; region-wise golden fallback (DESIGN 2.1 (i))."""
+    from translate import jets
+    src = common.read_src("JetAnalysis.py")
+    golden = common.LEAN / "golden/Gen/Jets.lean"
+    gtext = golden.read_text() if golden.exists() else None
+    text, regions = jets.render(src, golden=gtext)
+    common.write_if_changed(common.LEAN / "SparkxVerif/Gen/Jets.lean", text)
+    ctx.cov["gen_equals_golden"] = gtext is not None and gtext == text
+    bad = [r for r in regions if not r["tie"].startswith("T")]
+    good = [r["region"] for r in regions if r["tie"].startswith("T")]
+    if not bad:
+        ctx.cov["tie"] = ("T + C: parameter validation, PseudoJet creation, delta_r expression, cone association, hole "
+                          "subtraction, write_jet_output (upper cut, row layout, file mode), the event / jet loops of "
+                          "perform_jet_finding and read_jet_data regenerated and proved equal to the model; fastjet "
+                          "(clustering, eta/phi/perp/delta_phi_to) and csv by correspondence")
+    else:
+        # the golden text of these regions takes over; the correspondence carries their tie and runs enlarged
+        ctx.fallback = True
+        ctx.cov["golden_restored"] = ["Jets.lean: region " + r["gen_region"] for r in bad]
+        ctx.cov["tie"] = ("T + C for " + (", ".join(good) or "no method") + "; correspondence-only (translator could not "
+                          "re-derive) for " + ", ".join(r["region"] for r in bad))
+        for r in bad:
+            ctx.notes.append(f"{r['region']} is outside the translated fragment: {r['tie']}")
+    return regions
 
 
 # ------------------------------------------------------------------ plumbing around fastjet / sparkx
@@ -333,6 +366,11 @@ def run_line(inp, clusters, variant="repaired"):
                       _opt(inp["pt"][1]), "t" if inp["only_charged"] else "f", enc_prior(inp), enc_events(inp, clusters)])
 
 
+def grun_line(inp, clusters):
+    return "\t".join(["grun", f2h(inp["R"]), _opt(inp["eta"][0]), _opt(inp["eta"][1]), _opt(inp["pt"][0]),
+                      _opt(inp["pt"][1]), "t" if inp["only_charged"] else "f", enc_prior(inp), enc_events(inp, clusters)])
+
+
 def parse_rows(s):
     if s == "none":
         return None
@@ -465,8 +503,9 @@ def correspond(ctx):
         R = rng.choice([0.4, 1.0, 0.0, -0.3, rng.uniform(0.05, 2.0)])
         eta = (rng.choice(vals), rng.choice(vals))
         pt = (rng.choice(vals), rng.choice(vals))
-        lines.append("\t".join(["norm", f2h(R), _opt(eta[0]), _opt(eta[1]), _opt(pt[0]), _opt(pt[1])]))
-        meta.append(("norm", (R, eta, pt)))
+        for op in ("norm", "gnorm"):
+            lines.append("\t".join([op, f2h(R), _opt(eta[0]), _opt(eta[1]), _opt(pt[0]), _opt(pt[1])]))
+            meta.append((op, (R, eta, pt)))
     # --- reader
     for _ in range(ctx.n(40, 400)):
         n = rng.randint(0, 12)
@@ -478,8 +517,9 @@ def correspond(ctx):
             else:
                 i = 0 if (k == 0 or rng.random() < 0.4) else i + 1
                 idxs.append(i)
-        lines.append("read\t" + (";".join(map(str, idxs)) or "."))
-        meta.append(("read", idxs))
+        for op in ("read", "gread"):
+            lines.append(op + "\t" + (";".join(map(str, idxs)) or "."))
+            meta.append((op, idxs))
     # --- whole calls
     nrun = ctx.n(120, 2500)
     for k in range(nrun):
@@ -495,6 +535,15 @@ def correspond(ctx):
             continue
         lines.append(run_line(inp, clusters))
         meta.append(("run", (inp, info, clusters)))
+        lines.append(grun_line(inp, clusters))
+        meta.append(("grun", (inp, info, clusters)))
+        if k % 4 == 0:
+            try:
+                for l, m in method_cases(rng, inp, clusters):
+                    lines.append(l)
+                    meta.append(m)
+            except MethodGone as e:
+                ctx.count("generated-method-op skipped: " + str(e))
     # --- call histories on one long-lived JetAnalysis object: every call against the model run on the CURRENT content
     for k in range(ctx.n(30, 400)):
         sess = gen_session(rng)
@@ -514,16 +563,30 @@ def correspond(ctx):
             lines.append(run_line(inp, clusters))
             meta.append(("run", (inp, info, clusters, (step["outcome"], step["real"]),
                                  dict(base=sess["base"], steps=sess["steps"][:i + 1]))))
+            lines.append(grun_line(inp, clusters))
+            meta.append(("grun", (inp, info, clusters, (step["outcome"], step["real"]),
+                                  dict(base=sess["base"], steps=sess["steps"][:i + 1]))))
+    lines.append("glayout")
+    meta.append(("glayout", None))
     outs = common.run_driver("C20", lines)
     bad_runs = []
+    last_real = [None]
     for (kind, data), out in zip(meta, outs):
-        if kind == "norm":
-            _corr_norm(ctx, data, out)
-        elif kind == "read":
-            _corr_read(ctx, data, out)
+        if kind in ("norm", "gnorm"):
+            _corr_norm(ctx, data, out, gen=kind == "gnorm")
+        elif kind in ("read", "gread"):
+            _corr_read(ctx, data, out, gen=kind == "gread")
+        elif kind == "grun":
+            _corr_grun(ctx, data, out, last_real[0])
+        elif kind == "glayout":
+            ctx.count("generated/layout")
+            if out != GLAYOUT:
+                _brk(ctx, f"row layout / reader conversions of the GENERATED model: {out} vs documented layout {GLAYOUT}", dict(op="glayout"))
+        elif kind == "gmethod":
+            _corr_gmethod(ctx, data, out)
         else:
             before = ctx.hist.get("correspondence-disagreements", 0)
-            _corr_run(ctx, data, out)
+            last_real[0] = _corr_run(ctx, data, out)
             if ctx.hist.get("correspondence-disagreements", 0) > before and len(data) == 3:
                 bad_runs.append(data)
     if bad_runs:
@@ -555,7 +618,7 @@ def _ext(s):
     return -INF if s == "-inf" else INF if s == "+inf" else h2f(s)
 
 
-def _corr_norm(ctx, data, out):
+def _corr_norm(ctx, data, out, gen=False):
     from sparkx.JetAnalysis import JetAnalysis
     R, eta, pt = data
     ja = JetAnalysis()
@@ -571,6 +634,13 @@ def _corr_norm(ctx, data, out):
         mod = out
     swapped = (eta[0] is not None and eta[1] is not None and eta[0] > eta[1]) or \
               (pt[0] is not None and pt[1] is not None and pt[0] > pt[1])
+    if gen:
+        ctx.case(("gnorm", R, eta, pt), False)
+        ctx.count("generated/norm")
+        if real != mod:
+            _brk(ctx, f"parameter normalisation R={R} eta={eta} pt={pt}: code {real} vs GENERATED model {mod}",
+                 dict(op="gnorm", R=R, eta=eta, pt=pt))
+        return
     ctx.case(("norm", R, eta, pt), swapped or None in eta or None in pt,
              sample=_sample(ctx, "norm", dict(op="norm", R=R, eta=eta, pt=pt, code=real, model=mod)))
     ctx.count("norm/" + ("err" if real.startswith("err") else "swapped" if swapped else "plain"))
@@ -579,7 +649,7 @@ def _corr_norm(ctx, data, out):
              dict(op="norm", R=R, eta=eta, pt=pt))
 
 
-def _corr_read(ctx, idxs, out):
+def _corr_read(ctx, idxs, out, gen=False):
     from sparkx.JetAnalysis import JetAnalysis
     path = os.path.join(_tmpdir(), "read.csv")
     rows = [[i, 1.0 + k, 0.5, 0.25, 10 if i == 0 else 27, 10 if i == 0 else 211, 2.0 + k, 3] for k, i in enumerate(idxs)]
@@ -590,6 +660,12 @@ def _corr_read(ctx, idxs, out):
     real_groups = ja.jet_data_
     real = "ok " + (";".join(str(len(g)) for g in real_groups) or ".")
     flat = [r for g in real_groups for r in g]
+    if gen:
+        ctx.case(("gread", tuple(idxs)), False)
+        ctx.count("generated/read")
+        if real != out:
+            _brk(ctx, f"read_jet_data on first column {idxs}: code {real} vs GENERATED model {out}", dict(op="gread", first_column=idxs))
+        return
     ctx.case(("read", tuple(idxs)), len(real_groups) >= 2,
              sample=_sample(ctx, "read", dict(op="read", first_column=idxs, code=real, model=out)))
     ctx.count("read/groups=%d" % min(len(real_groups), 4))
@@ -660,14 +736,162 @@ def _corr_run(ctx, data, out):
     if outcome != "ok" or not out.startswith("ok "):
         if not (outcome == out):
             _brk(ctx, f"outcome: {who} '{outcome}' vs model '{out[:60]}' (tags {tags})", case)
-        return
+        return outcome, real, tags, case, who
     d = rows_match(real, model_rows, inp)
     if d:
         _brk(ctx, f"output file, {who} vs model ({tags}): {d}", case)
-        return
+        return outcome, real, tags, case, who
     d = rows_match(real, spec_rows, inp)
     if d:
         _brk(ctx, f"output file, {who} vs executable Lean specification ({tags}): {d}", case)
+    return outcome, real, tags, case, who
+
+
+def _corr_grun(ctx, data, out, last):
+    """the same call through `genPerform` (regenerated from the current source, evaluated at Float)"""
+    inp = data[0]
+    outcome, real, tags, case, who = last
+    ctx.evaluations += 1
+    ctx.count("generated/run")
+    case = dict(case, op="g" + case["op"])
+    if outcome != "ok" or not out.startswith("ok "):
+        if outcome != out:
+            _brk(ctx, f"outcome: {who} '{outcome}' vs GENERATED model '{out[:60]}' (tags {tags})", case)
+        return
+    d = rows_match(real, parse_rows(out.split()[1]), inp)
+    if d:
+        _brk(ctx, f"output file, {who} vs GENERATED model ({tags}): {d}", case)
+
+
+# ------------------------------------------------------------------ generated functions, method by method
+GLAYOUT = ("ok nat:0;perp:1.000000,2.000000,3.000000,4.000000;eta:1.000000,2.000000,3.000000,4.000000;"
+           "phi:1.000000,2.000000,3.000000,4.000000;nat:10;nat:10;val:4.000000;nat:7 "
+           "nat:5;perp:5.000000,6.000000,7.000000,8.000000;eta:5.000000,6.000000,7.000000,8.000000;"
+           "phi:5.000000,6.000000,7.000000,8.000000;status:27;pdgof:3;val:8.000000;nat:7 "
+           "int:0;float:1;float:2;float:3;int:4;int:5;float:6;int:7")
+
+
+class MethodGone(Exception):
+    pass
+
+
+def enc_parts(ev):
+    return ";".join("%s,%s,%s,%s,%s,%s" % ("nan" if d["status"] is None else d["status"], "t" if d["_charged"] else "f",
+                                            f2h(d["px"]), f2h(d["py"]), f2h(d["pz"]), f2h(d["E"])) for d in ev) or "."
+
+
+def _ja_for(events, R):
+    """a JetAnalysis object whose attributes are set as perform_jet_finding sets them (public attributes only)"""
+    from sparkx.JetAnalysis import JetAnalysis
+    ja = JetAnalysis()
+    ja.hadron_data_ = events
+    ja.jet_R_ = R
+    ja.jet_eta_range_ = (-INF, INF)
+    ja.jet_pT_range_ = (0.0, INF)
+    return ja
+
+
+def method_cases(rng, inp, clusters):
+    """driver lines for the GENERATED functions together with what the real methods return on the same arguments"""
+    import numpy as np
+    fj = _fj()
+    out = []
+    events = mk_events(inp)
+    cands = [i for i, ev in enumerate(inp["events"]) if ev]
+    if not cands:
+        return out
+    i = rng.choice(cands)
+    ev, parts = inp["events"][i], events[i]
+    ja = _ja_for(events, inp["R"])
+    for name in ("create_fastjet_PseudoJets", "fill_associated_particles", "jet_hole_subtraction", "write_jet_output"):
+        if not callable(getattr(ja, name, None)):
+            raise MethodGone(name)
+    # create_fastjet_PseudoJets
+    pjs = ja.create_fastjet_PseudoJets(parts)
+    out.append(("gpj\t" + enc_parts(ev), ("gmethod", ("gpj", "ok " + (";".join(",".join(f2h(x) for x in (p.px(), p.py(), p.pz(), p.e())) for p in pjs) or "."),
+                                                       dict(op="gpj", event=strip(dict(inp, events=[ev]))["events"][0])))))
+    if any(d["status"] is None for d in ev):
+        nan = True
+    else:
+        nan = False
+    cs = fj.ClusterSequence(pjs, _jetdef(inp["alg"], inp["R"]))
+    jets = fj.sorted_by_pt(cs.inclusive_jets(0.0))
+    for jet, jd in list(zip(jets, clusters[i]))[:2]:
+        if (jet.px(), jet.py(), jet.pz(), jet.e()) != (jd["px"], jd["py"], jd["pz"], jd["E"]):
+            continue
+        # delta_r expression: generated formula on fastjet's eta / delta_phi_to against the value the model is handed
+        for pj, dr in list(zip(pjs, jd["dr"]))[:6]:
+            ep, ej, dp = pj.eta(), jet.eta(), pj.delta_phi_to(jet)
+            if all(math.isfinite(x) for x in (ep, ej, dp, dr)):
+                out.append(("\t".join(["gdr", f2h(ep), f2h(ej), f2h(dp)]), ("gmethod", ("gdr", dr, dict(op="gdr", etaP=ep, etaJ=ej, dphi=dp)))))
+        for sel, only in (("negative", False), ("positive", inp["only_charged"]), ("positive", not inp["only_charged"]), ("negative", True)):
+            try:
+                got = ja.fill_associated_particles(jet, i, status_selection=sel, only_charged=only)
+                real = "ok " + (";".join(str(next(k for k, p in enumerate(parts) if p is q)) for q in got) or ".")
+            except ValueError:
+                real = "err value"
+            out.append(("\t".join(["gfill", f2h(inp["R"]), sel[:3], "t" if only else "f", enc_parts(ev), ":".join(f2h(x) for x in jd["dr"]) or "."]),
+                        ("gmethod", ("gfill", real, dict(op="gfill", event=strip(dict(inp, events=[ev]))["events"][0], R=inp["R"], sel=sel,
+                                                         only_charged=only, jet=[jd[k] for k in ("px", "py", "pz", "E")])))))
+        if nan:
+            continue
+        holes = [k for k, (d, dr) in enumerate(zip(ev, jd["dr"])) if d["status"] < 0 and dr < inp["R"]]
+        if rng.random() < 0.3:
+            holes = [k for k in range(len(ev)) if rng.random() < 0.4]
+        pj = fj.PseudoJet(jd["px"], jd["py"], jd["pz"], jd["E"])
+        res = ja.jet_hole_subtraction(pj, [parts[k] for k in holes])
+        if res is not pj:
+            pj = res
+        out.append(("\t".join(["gsub", ",".join(f2h(jd[k]) for k in ("px", "py", "pz", "E")), enc_parts([ev[k] for k in holes])]),
+                    ("gmethod", ("gsub", "ok " + ",".join(f2h(x) for x in (pj.px(), pj.py(), pj.pz(), pj.e())),
+                                 dict(op="gsub", jet=[jd[k] for k in ("px", "py", "pz", "E")], holes=[strip(dict(inp, events=[[ev[k]]]))["events"][0][0] for k in holes])))))
+        # write_jet_output on the subtracted jet, with an upper bound that is sometimes exactly its pT
+        assoc = [k for k in range(len(ev)) if rng.random() < 0.5][:4]
+        hi = rng.choice([INF, pj.perp(), pj.perp() * 2 + 1.0, pj.perp() / 2])
+        nf = rng.random() < 0.5
+        sub = dict(inp, prior=gen_prior(rng)[0])
+        path = os.path.join(_tmpdir(), "w.csv")
+        if os.path.exists(path):
+            os.remove(path)
+        if sub["prior"] is not None:
+            with open(path, "w", newline="") as f:
+                f.write(sub["prior"])
+        ja.jet_pT_range_ = (0.0, hi)
+        ret = ja.write_jet_output(path, pj, [parts[k] for k in assoc], i, nf)
+        ja.jet_pT_range_ = (0.0, INF)
+        real_rows = read_rows(path)
+        # the generated function numbers the given particles 0..; `sub` maps them back to the event
+        sub_inp = dict(sub, events=[[]] * i + [[ev[k] for k in assoc]])
+        out.append(("\t".join(["gwrite", "+inf" if hi == INF else f2h(hi), enc_prior(sub), "t" if nf else "f", str(i),
+                               ",".join(f2h(x) for x in (pj.px(), pj.py(), pj.pz(), pj.e())), enc_parts([ev[k] for k in assoc])]),
+                    ("gmethod", ("gwrite", (real_rows, ret, sub_inp),
+                                 dict(op="gwrite", upper=hi, new_file=nf, event=i, prior=sub["prior"])))))
+    return out
+
+
+def _corr_gmethod(ctx, data, out):
+    op, real, case = data
+    ctx.evaluations += 1
+    ctx.count("generated/" + op)
+    if op == "gdr":
+        if not out.startswith("ok "):
+            return _brk(ctx, f"delta_r through the GENERATED expression: {out}", case)
+        v = h2f(out.split()[1])
+        if not (v == real or abs(v - real) <= 4e-16 * max(abs(v), abs(real))):
+            _brk(ctx, f"delta_r: GENERATED expression gives {v!r}, the code's formula (as the model is handed it) {real!r}", case)
+        return
+    if op == "gwrite":
+        rows, ret, sub_inp = real
+        if not out.startswith("ok "):
+            return _brk(ctx, f"write_jet_output through the GENERATED function: {out}", case)
+        f = out.split()
+        d = rows_match(rows, parse_rows(f[1]), sub_inp)
+        if d or (f[2] == "t") != bool(ret):
+            _brk(ctx, f"write_jet_output, code vs GENERATED function (upper bound {case['upper']}, new_file {case['new_file']}): "
+                      f"{d or 'returned flag %r vs %s' % (ret, f[2])}", case)
+        return
+    if out != real:
+        _brk(ctx, f"{op}: code {real[:200]} vs GENERATED function {out[:200]}", case)
 
 
 # ------------------------------------------------------------------ oracle on the real code (independent reference)
